@@ -108,8 +108,8 @@ def run_ops(klepto, archmon, a, b, root, ops):
         r['call'] = mono()
         try:
             if o == 'set':
-                a[dec(op[1])] = dec(op[2])
                 r['value'] = op[2]
+                a[dec(op[1])] = dec(op[2])
                 res = None
             elif o == 'get':
                 res = enc(a[dec(op[1])])
@@ -151,7 +151,7 @@ class Proc(object):
     pass
 
 
-def spawn_client(job, sc, name, gated):
+def spawn_client(job, sc, name, gated, gate_level=2):
     jp = os.path.join(sc, name + '.job.json')
     job = dict(job)
     job['out'] = os.path.join(sc, name + '.out.json')
@@ -164,7 +164,8 @@ def spawn_client(job, sc, name, gated):
     if gated:
         r_req, w_req = os.pipe()
         r_ack, w_ack = os.pipe()
-        env.update({'LD_PRELOAD': SHIM, 'FSSHIM_ROOT': job['root'], 'FSSHIM_GATE': '%d,%d' % (w_req, r_ack)})
+        env.update({'LD_PRELOAD': SHIM, 'FSSHIM_ROOT': job['root'], 'FSSHIM_GATE': '%d,%d' % (w_req, r_ack),
+                    'FSSHIM_GATE_LEVEL': str(gate_level)})
         pr.p = subprocess.Popen([PY, '-m', 'kv.concmon', jp], env=env, cwd=sc, pass_fds=(w_req, r_ack),
                                 stdout=subprocess.PIPE, stderr=subprocess.STDOUT)
         os.close(w_req); os.close(r_ack)
@@ -255,6 +256,167 @@ def run_gated(jobs, sc, rng, policy='random', watchdog=40):
     return outs, trace, ok
 
 
+def run_dfs_once(jobs, sc, forced, watchdog=60, gate_level=1):
+    """one gated run under a *deterministic* policy: follow `forced` (list of process indices), then
+    keep running the same process while it is enabled, else the lowest-numbered enabled one.
+    The controller decides only when every live process is blocked at the gate (or a 2 s fallback
+    fired, reported as timing-dependent). -> (outs, steps[(enabled, chosen)], ok, timing_dependent)"""
+    procs = [spawn_client(j, sc, 'd%d' % i, True, gate_level=gate_level) for i, j in enumerate(jobs)]
+    t0 = time.time()
+    pump(procs, 20)
+    steps = []
+    last = None
+    ok, timing = True, False
+    while any(p.alive for p in procs):
+        if time.time() - t0 > watchdog:
+            ok = False
+            break
+        pump(procs, 0.25)
+        if any(p.alive and p.blocked is None for p in procs):
+            timing = True      # somebody is running without reaching the gate (e.g. sqlite busy wait)
+        enabled = [i for i, p in enumerate(procs) if p.alive and p.blocked is not None]
+        if not enabled:
+            continue
+        n = len(steps)
+        if n < len(forced) and forced[n] in enabled:
+            i = forced[n]
+        elif last in enabled:
+            i = last
+        else:
+            i = enabled[0]
+        steps.append((enabled, i, procs[i].blocked[0]))
+        p = procs[i]
+        p.blocked = None
+        try:
+            os.write(p.w_ack, b'x')
+        except OSError:
+            p.alive = False
+        last = i
+    outs = []
+    for p in procs:
+        try:
+            p.p.wait(timeout=10 if ok else 1)
+        except subprocess.TimeoutExpired:
+            p.p.kill(); ok = False
+        os.close(p.r_req); os.close(p.w_ack)
+        if os.path.exists(p.out):
+            with open(p.out) as f:
+                outs.append(json.load(f))
+            os.remove(p.out)
+        else:
+            outs.append(None)
+    return outs, steps, ok, timing
+
+
+def preemptions(steps_prefix):
+    n = 0
+    for j in range(1, len(steps_prefix)):
+        en, ch, _ = steps_prefix[j]
+        prev = steps_prefix[j - 1][1]
+        if ch != prev and prev in en:
+            n += 1
+    return n
+
+
+def explore_bounded(case, bound=2, max_runs=400, budget_s=600):
+    """stateless DFS over the gate-level schedules of one short operation pair with at most `bound`
+    preemptions. -> (violations, counters, exhausted)"""
+    viol, cnt = [], {'c14_dfs_pairs': 1}
+    t0 = time.time()
+    b = case['backend']
+    stack = [[]]
+    seen = set()
+    exhausted = True
+    with Scratch('dfs') as sc:
+        root0 = os.path.join(sc, 'root0')
+        os.makedirs(root0)
+        jp = os.path.join(sc, 'build.json')
+        with open(jp, 'w') as f:
+            json.dump({'job': 'build', 'backend': b, 'root': root0, 'items': case['s0']}, f)
+        subprocess.run([PY, '-m', 'kv.concmon', jp], env=child_env(), cwd=sc, timeout=60,
+                       stdout=subprocess.PIPE, stderr=subprocess.STDOUT)
+        import shutil
+        runs = 0
+        while stack:
+            if runs >= max_runs or time.time() - t0 > budget_s:
+                exhausted = False
+                break
+            forced = stack.pop()
+            root = os.path.join(sc, 'root')
+            if os.path.exists(root):
+                shutil.rmtree(root)
+            shutil.copytree(root0, root, symlinks=True)
+            jobs = [dict(j, job='client', backend=b, root=root) for j in case['jobs']]
+            outs, steps, ok, timing = run_dfs_once(jobs, sc, forced, gate_level=(2 if b['kind'] == 'sql' else 1))
+            runs += 1
+            cnt['c14_dfs_schedules'] = cnt.get('c14_dfs_schedules', 0) + 1
+            if timing:
+                cnt['c14_dfs_timing_dependent_runs'] = cnt.get('c14_dfs_timing_dependent_runs', 0) + 1
+            if not ok:
+                cnt['c14_watchdog_expired'] = cnt.get('c14_watchdog_expired', 0) + 1
+                exhausted = False
+                continue
+            sig = tuple(s[1] for s in steps)
+            if sig in seen:
+                continue
+            seen.add(sig)
+            fp = os.path.join(sc, 'final.json')
+            with open(fp, 'w') as f:
+                json.dump({'job': 'final', 'backend': b, 'root': root, 'out': os.path.join(sc, 'final.out.json')}, f)
+            subprocess.run([PY, '-m', 'kv.concmon', fp], env=child_env(), cwd=sc, timeout=60,
+                           stdout=subprocess.PIPE, stderr=subprocess.STDOUT)
+            try:
+                with open(os.path.join(sc, 'final.out.json')) as f:
+                    final = json.load(f)
+            except Exception:
+                final = {'error': 'final reader produced nothing'}
+            JUDGE_NOTES.clear()
+            vs = judge(case, outs, final)
+            for k, n in JUDGE_NOTES.items():
+                cnt[k] = cnt.get(k, 0) + n
+            for v in vs:
+                v['schedule'] = list(sig)
+            viol.extend(vs)
+            # children: switch to another enabled process at any step not fixed by the prefix
+            for i in range(len(forced), len(steps)):
+                en, ch, _ = steps[i]
+                for alt in en:
+                    if alt == ch:
+                        continue
+                    pre = steps[:i] + [(en, alt, '?')]
+                    if preemptions(pre) <= bound:
+                        stack.append([s[1] for s in steps[:i]] + [alt])
+    cnt['c14_dfs_distinct_schedules'] = len(seen)
+    if exhausted:
+        cnt['c14_dfs_pairs_exhausted'] = 1
+    return viol, cnt, exhausted
+
+
+DFS_PAIRS = [
+    ('overwrite-vs-get', [[['set', 'k', 'k-1']], [['get', 'k']]]),
+    ('overwrite-vs-items', [[['set', 'k', 'k-1']], [['items']]]),
+    ('new-vs-keys', [[['set', 'n1', 'n-1']], [['keys']]]),
+    ('new-vs-load', [[['set', 'n1', 'n-1']], [['load']]]),
+    ('writer-vs-writer', [[['set', 'w0', 'a-1']], [['set', 'w1', 'b-1']]]),
+    ('overwrite-vs-in', [[['set', 'k', 'k-1']], [['in', 'k']]]),
+    ('writer-vs-opener', [[['set', 'n1', 'n-1']], [['open', 0]]]),
+]
+
+
+def dfs_cases():
+    out = []
+    for b in CONFIGS:
+        for name, jobs in DFS_PAIRS:
+            if name == 'writer-vs-writer' and b['kind'] == 'file':
+                continue
+            wl = {'overwrite-vs-get': 'overwrite-reader', 'overwrite-vs-items': 'overwrite-reader',
+                  'overwrite-vs-in': 'overwrite-reader', 'new-vs-keys': 'writer-reader', 'new-vs-load': 'writer-reader',
+                  'writer-vs-writer': 'writer-writer', 'writer-vs-opener': 'writer-opener'}[name]
+            out.append({'backend': dict(b), 'workload': wl, 'pair': name, 's0': [['base', 'b0'], ['k', 'k0']],
+                        'jobs': [{'ops': j} for j in jobs], 'policy': 'dfs', 'free': False, 'seed': 0})
+    return out
+
+
 def run_free(jobs, sc, timeout=120):
     procs = [spawn_client(j, sc, 'c%d' % i, False) for i, j in enumerate(jobs)]
     outs, ok = [], True
@@ -325,6 +487,9 @@ def gen_case(rng, prop='C14', free=False):
 # =========================================================================================
 # oracle
 
+JUDGE_NOTES = {}
+
+
 def judge(case, outs, final):
     viol = []
     b = case['backend']
@@ -377,6 +542,13 @@ def judge(case, outs, final):
             continue
         for r in rec:
             o = r['op']
+            if 'exc' in r and 'database is locked' in r['exc']:
+                # sqlite's busy timeout is wall-clock (5 s): under a controller that withholds the lock
+                # holder, or on a loaded machine, this is inconclusive - never a verdict
+                JUDGE_NOTES['c14_sqlite_busy_timeouts'] = JUDGE_NOTES.get('c14_sqlite_busy_timeouts', 0) + 1
+                if o == 'set':
+                    r['exc'] = r['exc']      # the write did not complete: it is not owed at the end
+                continue
             if 'exc' in r and not (r['exc'] == 'KeyError' and o == 'get'):
                 mech = []
                 if o != 'set' and b['kind'] == 'file' and wl == 'writer-opener' and r['exc'] == 'KeyError':
@@ -513,7 +685,9 @@ def run_case(case, prop='C14'):
                 final = json.load(f)
         except Exception:
             final = {'error': 'final reader produced nothing'}
+        JUDGE_NOTES.clear()
         viol = judge(case, outs, final)
+        cnt.update(JUDGE_NOTES)
         nops = sum(len(o or []) for o in outs)
         cnt['c14_client_ops'] = nops
         cnt['c14_schedules_free' if case.get('free') else 'c14_schedules_gated'] = 1
@@ -541,6 +715,23 @@ def run_shard(prop, tier, seed, shard, nshards, opts):
     if not ensure_shim():
         res['notes'].append('shim could not be built')
         return res
+    dfs = dfs_cases() if opts.get('dfs_bound') is not None else []
+    for di in range(shard, len(dfs), nshards):
+        if time.time() - t0 > budget:
+            break
+        case = dfs[di]
+        viol, cnt, exhausted = explore_bounded(case, bound=opts['dfs_bound'], max_runs=opts.get('dfs_max_runs', 300),
+                                               budget_s=opts.get('dfs_budget_s', 300))
+        res['cases'] += cnt.get('c14_dfs_schedules', 0)
+        for k, v in cnt.items():
+            res['counters'][k] = res['counters'].get(k, 0) + v
+        cell = 'dfs/%s/%s' % (backend_name(case['backend']), case['pair'])
+        res['cells'][cell] = cnt.get('c14_dfs_distinct_schedules', 0)
+        res['notes'].append('%s: %d distinct schedules with <=%d preemptions, %s' % (
+            cell, cnt.get('c14_dfs_distinct_schedules', 0), opts['dfs_bound'], 'exhausted' if exhausted else 'NOT exhausted'))
+        for v in viol:
+            if len(res['violations']) < 200:
+                res['violations'].append(v)
     i = shard
     n_total = opts.get('cases', 400)
     free_every = opts.get('free_every', 5)
